@@ -738,6 +738,8 @@ func runCLIWorker(args []string) int {
 	return 0
 }
 
+var workerSeq int64
+
 type cliWorker struct {
 	cmd    *exec.Cmd
 	in     io.WriteCloser
@@ -751,6 +753,10 @@ func startCLIWorker(prop string) (*cliWorker, error) {
 		return nil, err
 	}
 	c := exec.Command(self, "cli-worker", prop)
+	if n := atomic.AddInt64(&workerSeq, 1); n%2 == 0 {
+		// printed times are UTC whatever the local zone of the process is
+		c.Env = append(os.Environ(), "TZ=Asia/Tokyo")
+	}
 	in, err := c.StdinPipe()
 	if err != nil {
 		return nil, err
